@@ -31,9 +31,11 @@ def classify(run, case, impl, model):
     k = 0
     while k < len(a) and k < len(b) and a[k] == b[k]:
         k += 1
-    ops = case.split()[1:]
+    toks = case.split()
+    kind = toks[0]
+    ops = toks[2:] if kind == "join" else toks[1:]
     op = ops[k][0] if k < len(ops) else "end"
-    return "seq/impl=%s/model=%s/at=%s" % (cls(impl), cls(model), op)
+    return "%s/impl=%s/model=%s/at=%s" % (kind, cls(impl), cls(model), op)
 
 
 def violates(run, case, impl, model):
